@@ -124,6 +124,7 @@ package cipher
 // zero padded; then the rest of a, then the plaintext (each zero padded by cmac), and the result is
 // xored with the encrypted counter block A_0 and truncated to the tag size
 //@ func (*ccm).auth property C04
+//@   timeout 120
 //@   config ns in 7,8,9,10,11,12,13 = c.nonceSize
 //@   config ts in 4,6,8,10,12,14,16 = c.tagSize
 //@   requires ccmok(c) && len(nonce) == c.nonceSize && tagMask != nil && len(plaintext) < pow2(8 * (15 - ns)) && len(plaintext) < 4611686018427387904 && len(additionalData) < 4611686018427387904
